@@ -1143,7 +1143,7 @@ def check_C05(h, rng, tier):
 CHECKS = {
     # pid: (function, [(profile, histories in the quick tier)])
     "C14": (check_C14, [("session", 160), ("crowd", 48), ("kf", 48), ("core", 64)]),
-    "C11": (check_C11, [("restart", 240), ("sweep", 80), ("core", 80)]),
+    "C11": (check_C11, [("restart", 240), ("sweep", 80), ("core", 80), ("reuse-after-prune", 32), ("stale-ns", 16)]),
     "C18": (check_C18, [("config", 120), ("session", 60), ("two-app", 60)]),
     "C10": (check_C10, [("crash", 160), ("session", 80), ("usage", 80), ("core", 80)]),
     "C17": (check_C17, [("discipline", 240), ("malformed", 160), ("core", 80)]),
